@@ -324,7 +324,7 @@ func (w *arWorld) pack(to types.Address, method string, s *arSpec, gen string) *
 	if p := safely(func() { data, err = ca.PackMethod(method, s.args...) }); p != "" || err != nil {
 		w.r.c.Hit("pack-failed-" + gen)
 		if w.r.c.Args["debug"] != "" {
-			w.r.c.Hit(fmt.Sprintf("pack-failed %s.%s %v %s", arContractName(to), method, err, firstLine(p)))
+			w.r.c.Hit(fmt.Sprintf("pack-failed %s.%s %v %s", arContractName(to), method, err, firstLine300(p)))
 		}
 		return nil
 	}
